@@ -226,6 +226,84 @@ theorem depth_continuous' (o : Ordered σ) (j : JunctionsAgree σ) : Continuous 
   · tauto
   · tauto
 
+/-! ### boundary stripping of the spline groove -/
+
+theorem dropFaceRun_suffix : ∀ l : List (ℝ × ℝ), ∃ s, l = s ++ dropFaceRun l
+  | [] => ⟨[], rfl⟩
+  | [p] => ⟨[], rfl⟩
+  | p :: q :: rest => by
+    simp only [dropFaceRun]
+    split_ifs
+    · obtain ⟨s, hs⟩ := dropFaceRun_suffix (q :: rest)
+      exact ⟨p :: s, by rw [List.cons_append, ← hs]⟩
+    · exact ⟨[], rfl⟩
+
+theorem dropFaceRun_ne_nil : ∀ l : List (ℝ × ℝ), l ≠ [] → dropFaceRun l ≠ []
+  | [], h => absurd rfl h
+  | [p], _ => by simp [dropFaceRun]
+  | p :: q :: rest, _ => by
+    simp only [dropFaceRun]
+    split_ifs
+    · exact dropFaceRun_ne_nil (q :: rest) (by simp)
+    · simp
+
+theorem dropFaceRun_getLast (l : List (ℝ × ℝ)) : (dropFaceRun l).getLast? = l.getLast? := by
+  rcases l with _ | ⟨a, l⟩
+  · rfl
+  · obtain ⟨s, hs⟩ := dropFaceRun_suffix (a :: l)
+    conv_rhs => rw [hs]
+    rw [List.getLast?_append_of_ne_nil _ (dropFaceRun_ne_nil _ (by simp))]
+
+/-- a vertex off the face line survives, provided the first vertex lies on the face line -/
+theorem dropFaceRun_mem : ∀ (l : List (ℝ × ℝ)), (∀ a ∈ l.head?, isclose a.2 (PyNum.nat 0 : ℝ) = true) →
+    ∀ p ∈ l, isclose p.2 (PyNum.nat 0 : ℝ) = false → p ∈ dropFaceRun l
+  | [], _, p, hp, _ => by simp at hp
+  | [a], _, p, hp, _ => by simpa [dropFaceRun] using hp
+  | a :: q :: rest, hh, p, hp, hc => by
+    simp only [dropFaceRun]
+    split_ifs with hq
+    · have ha : isclose a.2 (PyNum.nat 0 : ℝ) = true := hh a (by simp)
+      rcases List.mem_cons.mp hp with rfl | hp'
+      · rw [ha] at hc; exact absurd hc (by simp)
+      · exact dropFaceRun_mem (q :: rest) (by intro b hb; simp at hb; subst hb; exact hq) p hp' hc
+    · exact hp
+
+theorem stripFaceRuns_spec (pts : List (ℝ × ℝ)) (hacc : splineAccepts pts = true) :
+    (∃ s t, pts = s ++ stripFaceRuns pts ++ t)
+      ∧ ∀ p ∈ pts, isclose p.2 (PyNum.nat 0 : ℝ) = false → p ∈ stripFaceRuns pts := by
+  unfold stripFaceRuns
+  split_ifs with hall
+  · exact ⟨⟨[], [], by simp⟩, fun p hp _ => hp⟩
+  · have hhead : ∀ a ∈ pts.head?, isclose a.2 (PyNum.nat 0 : ℝ) = true := by
+      intro a ha
+      rcases pts with _ | ⟨b, t⟩
+      · simp at ha
+      · simp only [List.head?_cons, Option.mem_def, Option.some.injEq] at ha; subst ha
+        simp only [splineAccepts, col, List.map_cons, List.headD_cons, Bool.and_eq_true] at hacc
+        simpa using hacc.1
+    have hlast : ∀ a ∈ pts.getLast?, isclose a.2 (PyNum.nat 0 : ℝ) = true := by
+      intro a ha
+      simp only [splineAccepts, Bool.and_eq_true] at hacc
+      have h2 := hacc.2
+      rw [List.getLastD_eq_getLast?, show col 1 pts = pts.map (fun p => p.2) by simp [col], List.getLast?_map] at h2
+      simp only [Option.mem_def] at ha
+      rw [ha] at h2
+      simpa using h2
+    obtain ⟨s, hs⟩ := dropFaceRun_suffix pts
+    obtain ⟨s', hs'⟩ := dropFaceRun_suffix (dropFaceRun pts).reverse
+    constructor
+    · refine ⟨s, s'.reverse, ?_⟩
+      have : dropFaceRun pts = (dropFaceRun (dropFaceRun pts).reverse).reverse ++ s'.reverse := by
+        rw [← List.reverse_append, ← hs', List.reverse_reverse]
+      rw [List.append_assoc, ← this, ← hs]
+    · intro p hp hc
+      have h1 := dropFaceRun_mem pts hhead p hp hc
+      have h2 := dropFaceRun_mem (dropFaceRun pts).reverse (by
+        intro a ha
+        rw [List.head?_reverse, dropFaceRun_getLast] at ha
+        exact hlast a ha) p (List.mem_reverse.mpr h1) hc
+      exact List.mem_reverse.mpr h2
+
 /-! ### concrete instances for the non-vacuity examples -/
 
 /-- a trapezoidal groove: usable width 4, ground width 2, depth 1, flank 45°, face padding 1, sharp corners -/
@@ -269,12 +347,18 @@ theorem isclose_pos (y : ℝ) (h : (1 : ℝ) / 10 ^ 8 < y) : isclose y (0 : ℝ)
     mul_zero, add_zero, decide_eq_false_iff_not, not_le]
   rw [abs_of_pos (lt_trans (by positivity) h)]; simpa using h
 
-theorem strip_P0 : strip P0 = P0 := by
-  simp [strip, P0, col, rollR, rollL, isclose_zero_zero, isclose_pos 4 (by norm_num)]
+theorem strip_P0 : strip .faceRuns P0 = P0 := by
+  simp [strip, stripFaceRuns, dropFaceRun, P0, col, isclose_zero_zero, isclose_pos 4 (by norm_num)]
 
-theorem strip_P1 : strip P1 = P1 := by
-  simp [strip, P1, col, rollR, rollL, isclose_zero_zero, isclose_pos 1 (by norm_num), isclose_pos 2 (by norm_num),
-    isclose_pos 4 (by norm_num)]
+theorem strip_P1 : strip .faceRuns P1 = P1 := by
+  simp [strip, stripFaceRuns, dropFaceRun, P1, col, isclose_zero_zero, isclose_pos 1 (by norm_num),
+    isclose_pos 2 (by norm_num), isclose_pos 4 (by norm_num)]
+
+/-- two V-shaped grooves side by side -/
+noncomputable def twinV : List (ℝ × ℝ) := [(0, 0), (1, 1), (2, 0), (3, 1), (4, 0)]
+
+theorem stripBoth_twinV : strip .bothNeighbours twinV = [(0, 0), (2, 0), (4, 0)] := by
+  simp [strip, stripBoth, twinV, col, rollR, rollL, isclose_zero_zero, isclose_pos 1 (by norm_num)]
 
 theorem P0_refines_P1 : Refines OnChord P0 P1 := by
   refine .step _ [(-8, 0), (-6, 2), (-4, 4), (4, 4), (8, 0)] _ (.step _ _ _ (.refl _) ?_) ?_
